@@ -37,6 +37,11 @@ Proof. vm_compute. reflexivity. Qed.
 Lemma ob_no_unredacted_describer : describers_unredacted_sites = 0.
 Proof. vm_compute. reflexivity. Qed.
 
+(* utils/cobrautil/bind.go: a refused value from the environment or the config file is reported with the
+   placeholder when the flag is bound with a redact function *)
+Lemma ob_bind_error_redacts_value : bind_error_redacts_value = true.
+Proof. vm_compute. reflexivity. Qed.
+
 (* bind/flag.go: every flag whose value type is *url.Userinfo or *forwarder.HostPortUser, or whose
    usage says "<path or base64>", is bound with the matching redact function *)
 Lemma ob_all_secret_flags_redacted : forallb table_entry_ok flag_table = true.
